@@ -1,0 +1,7 @@
+//go:build verif
+
+package plenc
+
+import "github.com/philpearl/plenc/plenccodec"
+
+func verifYield(point string) { plenccodec.VerifYield(point) }
